@@ -462,6 +462,12 @@ def graph_shapes() -> List[Shape]:
          "f2": [], "f3": [], "f4": [call("f5")], "f5": [load("/y/a")]},
         reads={"f2": ["v1"], "f3": ["v2"]}, vtype={"v1": "int", "v2": "int"},
         dpath={"f2": "/y/a"}, tags=["runtime-keep-loads-sibling", "load-nested-helper"]))
+    # kept -> plain -> kept (data function) -> load: the load belongs to the lower kept node only
+    S.append(Shape(
+        "g_kpk", "f1",
+        {"f1": [call("f2"), keep("/z/top", "f3")], "f2": [], "f3": [call("f4")], "f4": [call("f5")], "f5": [load("/z/src")]},
+        reads={"f2": ["v1"], "f5": ["v2"]}, vtype={"v1": "int", "v2": "int"},
+        dpath={"f2": "/z/src", "f5": "/z/leaf"}, tags=["kept-plain-kept-load"]))
     # one function kept at two paths of one evaluation (same body / different bodies)
     S.append(Shape(
         "g_dup", "f1",
